@@ -143,9 +143,10 @@ func (w *World) startLoad(in *Instance) {
 		in.logs = append(in.logs, l)
 		w.smu.Lock()
 		if w.muOwner == nil {
-			w.muOwner = map[*sync.Mutex][2]int{}
+			w.muOwner = map[sync.Locker][2]int{}
 		}
 		w.muOwner[l.VerifPoolMuAddr()] = [2]int{in.idx, inc}
+		w.muOwner[l.VerifRootsMuAddr()] = [2]int{in.idx, inc}
 		w.smu.Unlock()
 		l.VerifCacheReadConn().SetTracer(&cacheTracer{w: w, in: in, inc: inc, l: l})
 		in.handler = l.Handler()
